@@ -41,7 +41,8 @@ CHECKS = {
              "signedness); the solver decides per path that no pair of operand codes has a product outside the reported output type, and "
              "that implemented_as() is the kind the operands call for.  Bounded by bits <= 16 (po2 <= 6).",
         note="Trusted: z3, the proxy/shim layer of vf.pysym, the value-set semantics of vf.qtypes.  The link from real qkeras quantizers "
-             "to qtools types (convert_qkeras_quantizer/get_exp) is a finite enumeration, reported as auxiliary.",
+             "to qtools types (convert_qkeras_quantizer/get_exp) is a finite enumeration, reported as auxiliary; the multiplier entries of the real QTools "
+             "data-type map (four real models, legacy Keras attributes stubbed) are checked with the same clause.",
         ref="DESIGN.md section 3 C16"),
     "C17": dict(
         level="model_checking", engine="pysym",
@@ -58,7 +59,8 @@ CHECKS = {
              "kinks of the surrogate) with a harness-side derivative; identical terms are discharged by hash-consing, the others by the "
              "solver, each with a finiteness query.",
         note="Trusted as C01 plus the gradient-op semantics (ReluGrad, LeakyReluGrad, TanhGrad, Select/Min/Max gradients) validated against "
-             "eager autodiff on every run.  Quantizers outside the property's catalogue (tanh/sigmoid/ulaw/hswish/bernoulli) are not covered.",
+             "eager autodiff on every run.  Quantizers outside the property's catalogue (tanh/sigmoid/ulaw/hswish/bernoulli) are not covered.  Data-dependent scales on two-element "
+             "tensors: off-diagonal Jacobian entries by the solver, diagonal entries on probe tensors (auxiliary).",
         ref="DESIGN.md section 3 C06"),
     "C07": dict(
         level="model_checking", engine="tfg2smt",
@@ -68,7 +70,8 @@ CHECKS = {
              "general mixing clauses and the equality of constructor/update-API/variable-backed objects.  QNoiseScheduler's Python code runs "
              "on z3-backed values: range, end points, monotonicity and one inductive update step for both hook routes.",
         note="Trusted: as C01/C03; products with the symbolic factor are opaque values constrained by lemmas valid for every IEEE "
-             "multiplication; np.power contract.  get_quantizers over real layers is a concrete auxiliary check.",
+             "multiplication; np.power contract.  get_quantizers runs on stand-in layers whose quantizers hold symbolic factors "
+             "(all paths) and, as an auxiliary, on one real model.  Data-dependent scales: end-point clauses only, on a two-element tensor.",
         ref="DESIGN.md section 3 C07"),
     "C09": dict(
         level="translation_validation", engine="equiv",
@@ -142,7 +145,8 @@ CHECKS = {
         technique="symbolic execution of get_operation_count / energy-sum extraction / memory energy functions on z3-backed geometry and energies (NIA/NRA queries)",
         text="get_operation_count runs on stand-in layers with symbolic geometry and the solver decides equality with the loop-nest count for all "
              "geometries in the bounds; extract_energy_sum/profile run on a symbolic energy dictionary; memory energies are non-negative.",
-        note="QTools.pe()/energy_estimate end to end and extract_model_operations cannot run under the pinned Keras 3 and are outside the claim.",
+        note="QTools.pe()/energy_estimate run end to end on five real models only as an auxiliary concrete part (legacy Keras attributes stubbed, "
+             "vf/legacy_keras.py); extract_model_operations is outside the claim.",
         ref="DESIGN.md section 3 C19"),
     "C08": dict(
         level="model_checking", engine="tfg2smt",
@@ -190,8 +194,8 @@ CHECKS["C15"] = dict(
          "reals (z3); counterexamples are replayed on the real layers.",
     note="Layer-level clauses only, inference mode only.  The folded layers cannot be constructed under the pinned Keras 3 (its "
          "BatchNormalization rejects the legacy arguments): the check supplies the legacy attribute surface as an environment stub (BNShim) "
-         "inside the two modules while it runs.  unfold_model / convert_to_folded_model / model_quantize(enable_bn_folding) abort under the "
-         "pinned Keras and are NOT covered.  Formula and conv+BN clauses are equalities over the reals (rounding outside the claim).",
+         "inside the two modules while it runs.  The plain layer built by convert_folded_layer_to_unfolded is proved equal to conv(q(K')) + q(B') with the folded "
+         "layer's quantizers; unfold_model runs end to end on five one-layer models (auxiliary).  convert_to_folded_model / model_quantize(enable_bn_folding) are NOT covered.  Formula and conv+BN clauses are equalities over the reals (rounding outside the claim).",
     ref="DESIGN.md section 3 C15")
 
 CHECKS["C14"] = dict(
